@@ -46,7 +46,9 @@ BC_SLICES = [
 def REQUIRED(tier):  # noqa: N802
     return {"bc_slices_completed": len(bc_slices()),
             "extreme_calls[bc]": 200, "extreme_calls[py]": 200,
-            "py_spy_accesses": 20000, "kernels_seen[py]": 20}
+            "py_spy_accesses": 20000, "kernels_seen[py]": 20,
+            "suite_runs": 1 if tier == "quick" else 5,
+            "suite_tests_passed": 10}
 
 
 def bc_slices():
@@ -77,6 +79,24 @@ def plan(tier: str, seed: int):
         shards.append({"name": f"py-extreme-{i}", "engine": "py",
                        "args": {"mode": "extreme", "rounds": 1 * mult},
                        "timeout": 3000})
+    # the repository's own tests driven through the bounds-checked kernels
+    sets = [["tests/ttp", "tests/binpacking2d/encodings",
+             "tests/binpacking2d/test_binpacking2d_packing_space.py",
+             "tests/tsp/test_tour_length.py"]]
+    if tier == "thorough":
+        sets += [["tests/binpacking2d/objectives", "tests/qap"],
+                 ["tests/tsp/test_ea1p1_revn.py",
+                  "tests/tsp/test_fea1p1_revn.py"],
+                 ["tests/dynamic_control/test_controllers.py",
+                  "tests/dynamic_control/test_systems.py",
+                  "tests/dynamic_control/test_ode.py",
+                  "tests/dynamic_control/test_objective.py"],
+                 ["tests/binpacking2d/instgen"]]
+    for i, t in enumerate(sets):
+        shards.append({"name": f"bc-suite-{i}", "engine": "bc",
+                       "args": {"mode": "suite", "tests": t, "domains": [],
+                                "rounds": 1, "oob": True},
+                       "timeout": 3300})
     if tier == "thorough":
         shards.append({"name": "vg", "engine": "jit",
                        "args": {"mode": "valgrind"}, "timeout": 3400})
